@@ -212,7 +212,11 @@ def find(
                     include,
                     os.path.dirname(state._get_realpath(e["file"])),
                 )
-                if include_file:
+                # A forced include is an include like any other: a header
+                # that declared #pragma once is not processed twice.
+                if include_file and file_platform.process_include(
+                    include_file,
+                ):
                     state.insert_file(include_file)
                     state.associate(include_file, file_platform)
 
